@@ -287,6 +287,12 @@ func (m *matchReplayer) replay(v matchVec, rng *rand.Rand) {
 	for i, id := range v.T {
 		pats[i] = m.g.Pool[id-1]
 	}
+	sorted := append([]string(nil), pats...)
+	sort.Strings(sorted)
+	m.r.guard("match replay of table "+strings.Join(sorted, " "), func() map[string]any { return map[string]any{"table": pats} }, func() { m.replayTable(v, pats, rng) })
+}
+
+func (m *matchReplayer) replayTable(v matchVec, pats []string, rng *rand.Rand) {
 	order := rng.Perm(len(pats))
 	plain, err := buildRouter(pats, order, m.method)
 	if err != nil {
